@@ -83,7 +83,8 @@ def chains(tier):
                     continue
                 igs = IGN3[:1] + ([IGN3[3], IGN3[5]] if (departs1 + departs2) <= 1 else [])
             else:
-                igs = IGN3
+                # thorough: every chain without ignore; every ignore placement for chains with <= 4 departures in all
+                igs = IGN3 if departs1 + departs2 <= 4 else IGN3[:1]
             for ig in igs:
                 for style in (('named', 'anon') if any(ig) and tier == 'thorough' else ('named',)):
                     yield [c1, c2], ig, style, False
@@ -259,7 +260,7 @@ def run(tier, seed):
     chk.rule = ('base A (start, X, class Y, template T; start refers to X and Y, Y to T, T to X; optionally start nested 16 block-nesting layers deep) and every derived grammar choosing for each of start/X/Y/T among inherit, '
                 'override, override with super, override through a new rule; all 216 two-level chains x 4 ignore placements x named/anonymous '
                 'x plain/dotted module names; three-level chains (quick: at most one rule per level departs from inherit, 3 ignore placements; '
-                'thorough: all 46656 (capped, see caps_hit) x 7 ignore placements); entries: parse of every module of the chain and every rule or class the module '
+                'thorough: all 20736 without ignore, the 3696 with <= 4 departures from inherit x 7 ignore placements); entries: parse of every module of the chain and every rule or class the module '
                 'defines itself; 97 inputs over {a,b,c,space,~}; oracle: late-binding model; history: the outcome table of every ancestor is '
                 're-checked after every later module is built and after every module is used; two-level chains are additionally built afresh and '
                 'used in the opposite order, and followed by a revision history (a revised base compiled under the same name, the same derived '
